@@ -31,6 +31,11 @@ func c10Gen(g *G) {
 	// a long-lived server session: its seq_no has passed 2^31 (negative as a signed 32-bit number) and 2^32 - 1
 	g.Emit("c10.run o,o Q1073741823;g0;w1;u;a0;c(u,x);j;g1;w2;n5;a1", "server-seqno-beyond-int32")
 	g.Emit("c10.run o Q2147483646;g0;w1;u;a0", "server-seqno-beyond-int32")
+	// requests encoded while a write is in progress and acknowledgements encoded meanwhile (all goroutines of the
+	// client on one processor, and on all): every message on the wire is exactly what its sender encoded — the
+	// peer checks requests and acknowledgements byte for byte
+	g.Emit("c10.run o,o,o P1;ywq:3000:1;g0;s400;g1;s300;u;x;g2;w3;a0;a1;a2", "encoded-message-waits-for-write-lock")
+	g.Emit("c10.run o,o g0;w1;ywk:3000:1;u;s400;g1;s300;n66;w2;c(a1,u);a0", "encoded-message-waits-for-write-lock")
 	n := g.N(60, 1500)
 	for i := 0; i < n; i++ {
 		if r.Intn(3) == 0 {
